@@ -35,6 +35,10 @@ func runC32(c *Ctx) {
 	r.NotCovered = append(r.NotCovered, "frame assembly from RTP packets (depacketisation, keyframe gating)", "PTS/timebase arithmetic", "short writes and I/O errors of the underlying writer")
 	r.Trusted = append(r.Trusted, "IVF container layout (https://wiki.multimedia.cx/index.php/IVF) as transcribed in props/c32.go")
 
+	r.Rule("C32.R5", "keyframe gate latches first: in every ivfwriter depacketizing function each append to the frame buffer is dominated by the store seenKeyFrame = true or by a branch that establishes seenKeyFrame (continuation fragments of the first keyframe pass the gate)", 3)
+	r.Rule("C32.R6", "IVFReader.ParseNextFrame returns nil or a buffer allocated in that call (make / append to nil / clone), never a slice of storage the reader keeps", 1)
+	c32R56(c) // c32b.go
+
 	l := core.NewLayout(c.P)
 	writeHeader := c.mustFunc("C32.R1", c32W, "IVFWriter.writeHeader")
 	writeFrame := c.mustFunc("C32.R1", c32W, "IVFWriter.writeFrame")
